@@ -66,6 +66,7 @@ func init() {
 	})
 	wrap("C14", func(c *Ctx, r *Report) {
 		ruleColumnOrder(c, r, "C14/column-order")
+		shareRule(c, r, "C16", "C16/payouts-table", "C14/payouts-table", "the staking payouts are the values of the same Payouts(): full stake below the cap, proportional share otherwise - also when the stake total exceeds 64 bits")
 	})
 	wrap("C17", func(c *Ctx, r *Report) {
 		ruleSettersAlwaysWrite(c, r, "C17-P17/setters-always-write")
